@@ -99,11 +99,16 @@ type kindDef struct {
 	prefixes     func(cfg string) []string
 	morePrefixes func(cfg string) []string // thorough tier only
 	paths        func(cfg, prefix string) []string
+	// forms: further termination paths that are alternative FORMS of one of the kind's paths (the RADIUS Disconnect
+	// naming the session by other attributes). Every form f is crossed with every path q: {f; f,f; f,q; q,f};
+	// pairs of two different forms in the thorough tier.
+	forms func(cfg, prefix string, thorough bool) []string
 	run          func(e *kenv, k kase) result // called inside a synctest bubble
 }
 
 // cases: quick = {p; p,p; p,q}; thorough additionally every sequence of three
-// paths and the kind's extra prefixes.
+// paths and the kind's extra prefixes. Forms (see kindDef.forms) come after the
+// kind's own paths, so the first witness of a class stays one over the base paths.
 func (kd kindDef) cases(thorough bool) []kase {
 	var out []kase
 	for _, c := range kd.cfgs {
@@ -120,6 +125,22 @@ func (kd kindDef) cases(thorough bool) []kase {
 					if thorough {
 						for _, d := range ps {
 							out = append(out, kase{kd.name, c, p, []string{a, b, d}})
+						}
+					}
+				}
+			}
+			if kd.forms != nil {
+				fs := kd.forms(c, p, thorough)
+				for _, f := range fs {
+					out = append(out, kase{kd.name, c, p, []string{f}}, kase{kd.name, c, p, []string{f, f}})
+					for _, q := range ps {
+						out = append(out, kase{kd.name, c, p, []string{f, q}}, kase{kd.name, c, p, []string{q, f}})
+					}
+					if thorough {
+						for _, g := range fs {
+							if g != f {
+								out = append(out, kase{kd.name, c, p, []string{f, g}})
+							}
 						}
 					}
 				}
@@ -141,6 +162,21 @@ func runCase(t *testing.T, kd kindDef, e *kenv, k kase) (res result) {
 		res = kd.run(e, k)
 	})
 	return
+}
+
+func formsNote(kd kindDef, thorough bool) string {
+	if kd.forms == nil {
+		return ""
+	}
+	n := map[string]bool{}
+	for _, c := range kd.cfgs {
+		for _, p := range kd.prefixes(c) {
+			for _, f := range kd.forms(c, p, thorough) {
+				n[f] = true
+			}
+		}
+	}
+	return fmt.Sprintf(" + %d RADIUS Disconnect-Request forms f (session named by Acct-Session-Id / User-Name / Framed-IP-Address / Calling-Station-Id combinations) x {f, f;f, f;q, q;f%s}", len(n), map[bool]string{true: ", f;g", false: ""}[thorough])
 }
 
 func kinds() []kindDef {
@@ -219,7 +255,7 @@ func runMatrix(t *testing.T, run *report.Run, kd kindDef, envs []*kenv) {
 	st.heldKinds.Range(func(k, _ any) bool { hk = append(hk, k.(string)); return true })
 	sort.Strings(hk)
 	run.AddPart(report.Part{Name: part, Engine: "A:complete-cross-product + C:kernel-maps/test-run", Exhaustive: true,
-		Bound:  fmt.Sprintf("%d configurations x prefixes x {p, p;p, p;q%s} over the kind's termination paths = %d cases", len(kd.cfgs), map[bool]string{true: ", p;q;r", false: ""}[run.Thorough()], len(cases)),
+		Bound:  fmt.Sprintf("%d configurations x prefixes x {p, p;p, p;q%s} over the kind's termination paths%s = %d cases", len(kd.cfgs), map[bool]string{true: ", p;q;r", false: ""}[run.Thorough()], formsNote(kd, run.Thorough()), len(cases)),
 		States: st.cases, Transitions: st.cases, Outcomes: int64(len(hk)),
 		Note: fmt.Sprintf("%d cases in which the victim held something before termination; %d fast-path answers for the victim before termination; distinct holdings: %s", st.held, st.tx, strings.Join(hk, " | "))})
 	if len(hk) > 0 {
@@ -240,7 +276,7 @@ func TestCheck(t *testing.T) {
 		"fault configurations (.../fault=X): exactly one release step of the victim's teardown is failed by injection (allocator ReleaseIPv4/ReleaseIPv6 error, UpdateEBPFMaps callback error, RADIUS server failing the Accounting-Stop); the resource behind the failed step is exempt (for a failed Stop: exactly one attempt is required), every other clause of the oracle applies unchanged",
 		"late prefixes (DHCP DRL/DRX, pppoe IPCP-LATE, subscriber ACTIVE-LATE): the session's deadline (lease time, idle timeout) has passed and the client acts again at an instant strictly between that deadline and the next tick of the periodic sweep; computed from the real lease expiry and the sweep period, not from wall time",
 		"Accounting clause is evaluated per Acct-Session-Id: every session id that got a Start gets exactly one Stop, no Stop without a Start",
-		"Engine B: scheduling points are lock operations, go statements and timers of the rewritten packages (radius, pppoe, subscriber, dhcp); nat/qos/ebpf code runs atomically between them; the end-of-schedule oracle runs inside the execution with scheduling off",
+		"Engine B: scheduling points are lock operations, go statements and timers of the rewritten packages (radius, pppoe, subscriber, dhcp, nat, qos); ebpf.Loader code and kernel-map system calls run atomically between them; the end-of-schedule oracle runs inside the execution with scheduling off",
 	}
 	dir, err := os.MkdirTemp(filepath.Join(nativebpf.Root(), ".work"), "c16-")
 	if err != nil {
